@@ -69,9 +69,10 @@ def key_of(alg, dname, x, eps):
     rot = {'so3': x[0:3], 'se3': x[3:6], 'rxso3': x[0:3], 'sim3': x[3:6]}[alg]
     th = math.sqrt(sum(a * a for a in rot))
     sg = x[-1] if alg in ('rxso3', 'sim3') else 0.0
-    if alg == 'sim3' and regime(sg, eps) == 'cancel':
-        # one call site, one mechanism, whatever the rotation: rxso3_Ws with eps < |sigma| <= sqrt(eps)/16
-        return 'exp-accuracy:sim3:%s:rxso3_Ws:eps<|sigma|<=sqrt(eps)/16' % dname
+    if alg == 'sim3' and regime(sg, eps) == 'cancel' and th <= math.sqrt(eps) / 16:
+        # one call site, one mechanism: rxso3_Ws with BOTH the rotation angle and the log-scale tiny (but |sigma| > eps)
+        # evaluates the K / K^2 coefficients by closed forms that cancel (1 - e^s cos(theta), 1 + (s-1) e^s, ...)
+        return 'exp-accuracy:sim3:%s:rxso3_Ws:eps<|sigma|<=sqrt(eps)/16:theta<=sqrt(eps)/16' % dname
     return 'exp-accuracy:%s:%s:theta=%s:sigma=%s' % (alg, dname, regime(th, eps), regime(sg, eps))
 
 
@@ -206,6 +207,12 @@ def run(ctx):
                 k += 1
                 for dname in ('float64', 'float32'):
                     plan.append((alg, dname, (kr, rng.choice(['one', 'large', 'tiny']), ks)))
+        if alg == 'sim3':
+            # directed: rotation at / below the threshold against log-scales just above it, translation across the axis
+            for dname in ('float64', 'float32'):
+                for tf in (0.0, 0.5, 1.0, 16.0, 2.0 ** 14):
+                    for sf in (1.0001, 2.0, 16.0, 512.0, 2048.0, 2.0 ** 14, 2.0 ** 18):
+                        plan.append((alg, dname, ('thr', tf, sf * rng.choice([1, -1]))))
         for _ in range(counts[alg]):
             plan.append((alg, 'float64' if rng.random() < 0.7 else 'float32',
                          (rng.choice(kindsR), rng.choice(kindsT), rng.choice(kindsS))))
@@ -213,7 +220,11 @@ def run(ctx):
     for (alg, dname, kinds) in plan:
         dtype = torch.float64 if dname == 'float64' else torch.float32
         eps = float(torch.finfo(dtype).eps)
-        x = gen_x(rng, alg, eps, kinds)
+        if kinds[0] == 'thr':
+            d = rng.choice([[1.0, 0, 0], [0, 0, 1.0], direction(rng)])
+            x = [rng.uniform(-2, 2), rng.uniform(-2, 2), rng.uniform(-2, 2)] + [kinds[1] * eps * a for a in d] + [kinds[2] * eps]
+        else:
+            x = gen_x(rng, alg, eps, kinds)
         xt = torch.tensor(x, dtype=dtype)
         x = [float(v) for v in xt.tolist()]          # the values the implementation really sees
         shape = rng.choice([(), (1,), (3,), (2, 1, 3)])
@@ -261,15 +272,31 @@ def run(ctx):
         w = KNOWN_WITNESS.get(key)
         if w and confirm(pp, torch, *w):
             ctx.known_hit[key] = 'witness still fails'
+    for key, w in FIXED_WITNESS.items():
+        why = confirm(pp, torch, *w)
+        if why:
+            ctx.violation(key, 'repaired defect is back: Exp(%s) [%s %s]: %s' % (w[2], w[0], w[1], why), dict(alg=w[0], dtype=w[1], x=w[2]))
     ctx.traces = len(r['ok'])
 
 
 # recorded witnesses of the listed findings: (alg, dtype, x)
 KNOWN_WITNESS = {
-    'exp-accuracy:sim3:float64:rxso3_Ws:eps<|sigma|<=sqrt(eps)/16':
-        ('sim3', 'float64', [1775.4265702961236, -2023.4098863027045, -581.1410674372639, 7.135500337766018e-26, -1.6038614529540755e-23, 7.710172192424853e-25, 5.995386517638057e-14]),
-    'exp-accuracy:sim3:float32:rxso3_Ws:eps<|sigma|<=sqrt(eps)/16':
-        ('sim3', 'float32', [1.0, -2.0, 0.5, 0.0, 0.0, 0.0, 3.0000001424923539e-07]),
+    'exp-accuracy:sim3:float64:rxso3_Ws:eps<|sigma|<=sqrt(eps)/16:theta<=sqrt(eps)/16':
+        ('sim3', 'float64', [0.0, 1.0, 0.0, 2.220446049250313e-16, 0.0, 0.0, 2.331690396317754e-16]),
+    'exp-accuracy:sim3:float32:rxso3_Ws:eps<|sigma|<=sqrt(eps)/16:theta<=sqrt(eps)/16':
+        ('sim3', 'float32', [0.0, 1.0, 0.0, 1.1920928955078125e-07, 0.0, 0.0, 1.2518167125108448e-07]),
+}
+# witnesses of repaired defects (known_findings.txt `fixed:` lines): replayed on every run, reported under
+# their own keys, never suppressed
+FIXED_WITNESS = {
+    'exp-accuracy:sim3:float64:rxso3_Ws:expm1-cancellation':
+        ('sim3', 'float64', [1.0, -2.0, 0.5, 0.3, -0.2, 0.5, 3e-16]),
+    'exp-accuracy:sim3:float32:rxso3_Ws:expm1-cancellation':
+        ('sim3', 'float32', [1.0, -2.0, 0.5, 0.3, -0.2, 0.5, 3.0000001424923539e-07]),
+    'exp-accuracy:sim3:float64:rxso3_Ws:B-coefficient-theta<=eps<|sigma|':
+        ('sim3', 'float64', [0.0, 1.0, 0.0, 2.0 ** -52, 0.0, 0.0, 2.0 ** -51]),      # returned t_y = 0.75
+    'exp-accuracy:sim3:float32:rxso3_Ws:B-coefficient-theta<=eps<|sigma|':
+        ('sim3', 'float32', [0.0, 1.0, 0.0, 2.0 ** -23, 0.0, 0.0, 2.0 ** -22]),
 }
 
 
